@@ -35,7 +35,8 @@ Proof.
   - reflexivity.
   - destruct ((0 <=? x) && (x <? 100)) eqn:E; inversion H; subst. exact E.
   - destruct ((0 <=? x) && (x <? 100)) eqn:E; [inversion H; subst; exact E|].
-    destruct ((100 <=? x) && (x <? 200)) eqn:E2; inversion H; subst. lia.
+    destruct ((100 <=? x) && (x <? 200)) eqn:E2; [inversion H; subst; lia|].
+    destruct ((300 <=? x) && (x <? 400)) eqn:E3; inversion H; subst. lia.
   - destruct ((0 <=? x) && (x <? 90)) eqn:E; inversion H; subst. lia.
 Qed.
 
